@@ -1100,6 +1100,7 @@ func (fr *Frame) anchoredAsserts(name string, c *ssa.CallCommon, st *State, pos 
 		if !globMatch(pat, name) {
 			continue
 		}
+		fx.anchorHit(a.Anchor)
 		var vals []Val
 		var tys []types.Type
 		if c.IsInvoke() {
@@ -1165,11 +1166,13 @@ func (fr *Frame) ghostAnchors(event string, st *State) {
 	for _, g := range fx.contract.GhostSets {
 		if globMatch(g.Glob, event) {
 			st.ghost[g.Label] = True
+			fx.anchorHit(g.Glob)
 		}
 	}
 	for _, g := range fx.contract.GhostClrs {
 		if globMatch(g.Glob, event) {
 			st.ghost[g.Label] = False
+			fx.anchorHit(g.Glob)
 		}
 	}
 }
@@ -1184,6 +1187,7 @@ func (fr *Frame) eventAsserts(event string, st *State, pos token.Pos) {
 		if strings.HasPrefix(a.Anchor, "call:") || !globMatch(a.Anchor, event) {
 			continue
 		}
+		fx.anchorHit(a.Anchor)
 		env := fr.specEnv(st, nil, nil)
 		g, err := env.evalBool(a.Clause.Expr)
 		if err != nil {
